@@ -28,12 +28,45 @@ func tailOf(n int) string {
 	return ""
 }
 
+// coverKinds: signature profile x /Type of the signature dictionary x role (field value / direct usage-rights entry).
+func coverKinds() []string {
+	var ks []string
+	for _, p := range synthKinds {
+		for _, t := range []string{"Sig", "DocTimeStamp"} {
+			ks = append(ks, p+"@"+t)
+		}
+		ks = append(ks, p+"@Sig#ur3")
+	}
+	return ks
+}
+
+func pagesOf(kind string) int {
+	for k, kk := range coverKinds() {
+		if kk == kind {
+			return 1 + k%2
+		}
+	}
+	return 1
+}
+
+// closers: for every later '>' byte within the next bytes behind the hex string, the widening C of the gap that makes it
+// end exactly on that byte (C = position + 1 - gapHi).
+func closers(b []byte, gapHi int) []int {
+	out := []int{}
+	for p := gapHi; p < len(b) && p < gapHi+24 && len(out) < 3; p++ {
+		if b[p] == '>' {
+			out = append(out, p+1-gapHi)
+		}
+	}
+	return out
+}
+
 // coverDocs: the samples plus, per synthetic kind and tail, one correctly signed document.
 func (e *env) coverDocs() []*doc {
 	docs := e.sampleDocs()
-	for i, k := range synthKinds {
+	for _, k := range coverKinds() {
 		for _, t := range []int{0, 10} {
-			b, _, err := e.pki.sign(k, 1+i%2, tailOf(t), rangeSpec{})
+			b, _, err := e.pki.sign(k, pagesOf(k), tailOf(t), rangeSpec{})
 			if err != nil {
 				h.Die("sign %s: %v", k, err)
 			}
@@ -62,6 +95,7 @@ type geomLine struct {
 	D     int    `json:"d"`
 	GapLo int    `json:"gaplo"`
 	GapHi int    `json:"gaphi"`
+	GT    []int  `json:"gt"` // gap widenings that end exactly on a later '>' byte
 }
 
 func runGeom() {
@@ -74,7 +108,7 @@ func runGeom() {
 			if s.GapLo < 0 {
 				continue
 			}
-			w.Put(geomLine{d.ID, s.Key, d.Synth, len(d.Bytes), s.BR[0], s.BR[1], s.BR[2], s.BR[3], s.GapLo, s.GapHi})
+			w.Put(geomLine{d.ID, s.Key, d.Synth, len(d.Bytes), s.BR[0], s.BR[1], s.BR[2], s.BR[3], s.GapLo, s.GapHi, closers(d.Bytes, s.GapHi)})
 			n++
 		}
 	}
@@ -213,12 +247,7 @@ func runC28() {
 			parts := strings.Split(c.Doc, "/") // synth/<kind>/t<tail>
 			tail := 0
 			fmt.Sscanf(parts[2], "t%d", &tail)
-			pages := 1
-			for k, kind := range synthKinds {
-				if kind == parts[1] {
-					pages = 1 + k%2
-				}
-			}
+			pages := pagesOf(parts[1])
 			var err error
 			if b, _, err = e.pki.sign(parts[1], pages, tailOf(tail), rangeSpec{c.P1, c.P2, c.P3, c.P4}); err != nil {
 				skip("resign:" + parts[1] + ": " + err.Error())
@@ -227,7 +256,7 @@ func runC28() {
 		default:
 			h.Die("unknown family %s", c.Fam)
 		}
-		r := &rec28{case28: c, ID: i + 1, Synth: d.Synth, DTS: s.SubFilter == "ETSI.RFC3161"}
+		r := &rec28{case28: c, ID: i + 1, Synth: d.Synth, DTS: s.SubFilter == "ETSI.RFC3161" && strings.HasPrefix(s.Key, "3:")}
 		// measure what is really in the file now
 		found := false
 		for _, ms := range measure(b) {
